@@ -213,6 +213,12 @@ def step (st : State) (w : List String) : State × String :=
     (st, s!"still={w.staged.length - 1} counts=" ++ ",".intercalate (w.sent.map (fun _ => "1")))
   | "dedup" :: _ => (st, "unmodelled")
   | "sys" :: _ => (st, "unmodelled")
+  | ["res", "new", _] => (st, "ok")
+  | ["res", "end"] => (st, "closed")
+  | ["res", "lateworker", n] =>
+    match n.toNat? with
+    | some n => (st, s!"held={attemptSlots 0 (List.replicate n AttemptExit.contextDead)}")
+    | none => (st, "bad-op")
   | "res" :: _ => (st, "unmodelled")
   | _ => (st, "bad-op")
 
